@@ -2,7 +2,7 @@
    inputs to this function (extracted to OCaml) and to the JAX implementation. *)
 From Coq Require Import ZArith QArith Qcanon List Bool.
 From EXV Require Import Base.Scalar Base.FieldLemmas Base.Cplx Exec.Codec.
-From EXV Require Import Utils.Rollout.
+From EXV Require Import Utils.Rollout Gen.ETDRK.
 Import ListNotations.
 Local Open Scope Z_scope.
 
@@ -43,9 +43,69 @@ Definition run_c14 (sub : Z) (a : list Q) : list Q :=
   | _ => []
   end.
 
+(* ---- C02: ETDRK coefficients and stage programs over the Gaussian rationals ---- *)
+Definition sel_integrand (p j : Z) : CQ -> CQ -> CQ -> CQ :=
+  match p, j with
+  | 1, 1 => etdrk1_integrand_1 CQ
+  | 2, 1 => etdrk2_integrand_1 CQ | 2, 2 => etdrk2_integrand_2 CQ
+  | 3, 1 => etdrk3_integrand_1 CQ | 3, 2 => etdrk3_integrand_2 CQ | 3, 3 => etdrk3_integrand_3 CQ
+  | 3, 4 => etdrk3_integrand_4 CQ | 3, 5 => etdrk3_integrand_5 CQ
+  | 4, 1 => etdrk4_integrand_1 CQ | 4, 2 => etdrk4_integrand_2 CQ | 4, 3 => etdrk4_integrand_3 CQ
+  | 4, 4 => etdrk4_integrand_4 CQ | 4, 5 => etdrk4_integrand_5 CQ | 4, 6 => etdrk4_integrand_6 CQ
+  | _, _ => fun _ _ _ => c0 QcOps
+  end.
+
+Fixpoint triples (l : list CQ) : list (CQ * CQ * CQ) :=
+  match l with
+  | a :: b :: c :: r => (a, b, c) :: triples r
+  | _ => []
+  end.
+
+Definition cq_of_z (z : Z) : CQ := mkcx (qqc (zq z)) (qqc 0).
+
+(* dt * (1/M) * sum_j integrand (lr_j, e_j, eh_j) *)
+Definition contour_coef (p j : Z) (dt : CQ) (pts : list (CQ * CQ * CQ)) : CQ :=
+  let f := sel_integrand p j in
+  let s := @fsum CQ (map (fun t => f (fst (fst t)) (snd (fst t)) (snd t)) pts) in
+  @omul CQ dt (@odiv CQ s (cq_of_z (Z.of_nat (length pts)))).
+
+(* test nonlinearity on vectors of length n: N(u)_k = u_k^2 + u_{(k+1) mod n} *)
+Definition vec (l : list CQ) : nat -> CQ := fun k => nth k l (c0 QcOps).
+Definition test_nl (n : nat) (u : nat -> CQ) : nat -> CQ :=
+  fun k => @oadd CQ (@omul CQ (u k) (u k)) (u (Nat.modulo (S k) n)).
+
+Fixpoint chunks {A} (n : nat) (m : nat) (l : list A) : list (list A) :=
+  match m with O => [] | S m' => firstn n l :: chunks n m' (skipn n l) end.
+
+Definition run_c02 (sub : Z) (a : list Q) : list Q :=
+  match sub with
+  | 1 => (* p j dt_re dt_im pts... *)
+      let p := qz (getq a 0) in let j := qz (getq a 1) in
+      let dt := mkcx (qqc (getq a 2)) (qqc (getq a 3)) in
+      put_cx [contour_coef p j dt (triples (take_cx (skipn 4 a)))]
+  | 2 => (* p n arrays... *)
+      let p := qz (getq a 0) in let n := qn (getq a 1) in
+      let arrs := chunks n 10 (take_cx (skipn 2 a)) in
+      let g i := vec (nth i arrs []) in
+      let out :=
+        match p with
+        | 0 => etdrk0_step CQ (g 0%nat) (g 1%nat)
+        | 1 => etdrk1_step CQ (g 0%nat) (g 1%nat) (test_nl n) (g 2%nat)
+        | 2 => etdrk2_step CQ (g 0%nat) (g 1%nat) (g 2%nat) (test_nl n) (g 3%nat)
+        | 3 => etdrk3_step CQ (g 0%nat) (g 1%nat) (g 2%nat) (g 3%nat) (g 4%nat) (g 5%nat) (g 6%nat) (test_nl n) (g 7%nat)
+        | 4 => etdrk4_step CQ (g 0%nat) (g 1%nat) (g 2%nat) (g 3%nat) (g 4%nat) (g 5%nat) (g 6%nat) (g 7%nat) (test_nl n) (g 8%nat)
+        | _ => fun _ => c0 QcOps
+        end in
+      put_cx (map out (seq 0 n))
+  | 3 => (* order dispatch *)
+      match order_dispatch (qz (getq a 0)) with None => [(-1)%Q] | Some c => [nq c] end
+  | _ => []
+  end.
+
 Definition run (id : Z) (a : list Q) : list Q :=
   let '(prop, sub) := Z.div_eucl id 100 in
   match prop with
   | 14 => run_c14 sub a
+  | 2 => run_c02 sub a
   | _ => []
   end.
